@@ -79,6 +79,14 @@ def gen_cases(ctx):
     for inc, exc in ((["**/*.go"], ["**/y.go"]), (["*"], []), (["src/**"], ["src/lib/*"]), (["**"], ["a/**"]), (["a/*/c/?.go", "*.txt"], ["m.txt"])):
         cases.append({"id": len(cases), "kind": "selection", "dirs": ["a", "a/b", "a/b/c", "src", "src/lib"],
                       "files": ["a/b/c/x.go", "a/x.go", "a/y.go", "m.txt", "ab.txt", "src/lib/y.go", "src/x.go", "x.go"], "inc": inc, "exc": exc, "events": [], "ops": []})
+    # exclude patterns with ? only, [no *], literal excludes, excludes inside directories
+    for inc, exc in ((["*.go"], ["?.go"]), (["a/*.go", "*.go"], ["a/?.go"]), (["*.txt", "*.go"], ["m.tx?", "x.go"]), (["**/*.go"], ["a/b/c/?.go", "src/lib/y.go"]), (["*"], ["?"]), (["src/*"], ["src/li?"])):
+        cases.append({"id": len(cases), "kind": "selection", "dirs": ["a", "a/b", "a/b/c", "src", "src/lib"],
+                      "files": ["a/b/c/x.go", "a/x.go", "a/y.go", "m.txt", "ab.txt", "src/lib/y.go", "src/x.go", "x.go", "xy.go", "q"], "inc": inc, "exc": exc, "events": [], "ops": []})
+    # a watched DIRECTORY: files created in it later are not selected paths of their own (their events come through the directory, once)
+    for ev in ([], ["create", "write"]):
+        cases.append({"id": len(cases), "kind": "history", "dirwatch": True, "dirs": ["sub"], "files": ["sub/old.txt", "other.md"], "inc": ["sub"], "exc": [], "events": ev,
+                      "ops": [["create", "sub/new.txt"], ["write", "sub/new.txt"], ["write", "sub/new.txt"], ["write", "sub/old.txt"], ["write", "other.md"]]})
     # event histories
     evsubsets = [[]] + [[k] for k in KNAMES] + [["write", "chmod"], ["remove", "rename"], ["create", "write", "remove", "rename", "chmod"], ["write", "remove"]]
     for i in range(150 if thorough else 14):
@@ -147,6 +155,8 @@ def run_one(workdir, c):
                     fh.write("more\n")
             elif op == "chmod":
                 os.chmod(fp, 0o600 if os.stat(fp).st_mode & 0o077 else 0o644)
+            elif op == "create":
+                open(fp, "x").close()
             elif op == "remove":
                 os.remove(fp)
             elif op == "rename":
@@ -238,6 +248,19 @@ def run(ctx):
             ev_items.append("(%d, ((%s, %s), %s))" % (c["id"], vlib.clist([KNAMES[e] for e in c["events"]], str), vlib.clist(evs), vlib.clist(runs)))
             # delivery sanity (lenient): an operation on a file that is itself selected and still there produces its primary event;
             # a file that is neither selected nor inside a selected directory produces none
+            if c.get("dirwatch"):
+                # every operation on a child of the watched directory is delivered exactly once, nothing for files elsewhere
+                want = {}
+                for op, f in c["ops"]:
+                    if f.startswith("sub/"):
+                        want[(op.upper(), f)] = want.get((op.upper(), f), 0) + 1
+                got = {}
+                for k, p in r["events"]:
+                    got[(k, p)] = got.get((k, p), 0) + 1
+                if got != want:
+                    res.violations.append({"class": None, "what": "watched directory: events are not exactly one per operation on its children (a path that was never selected is observed, or an event is lost)",
+                                           "case": {k: v for k, v in c.items() if k != "_obs"}, "observed": c["_obs"]})
+                continue
             selected = {"w1.txt", "w2.txt", "sub/w3.txt"}
             alive = set(c["files"])
             seen_paths = {p for _, p in r["events"]}
